@@ -84,7 +84,38 @@ class Ctx:
     def count(self, name, n=1):
         self.counters[name] = self.counters.get(name, 0) + n
 
+    def _anchor_wheres(self, where):
+        """a finding located in a newly extracted helper (a method that is not part of the pinned API) is attributed to the pinned method(s) on whose
+        behalf the helper runs, so that moving code into a helper does not rename the finding"""
+        if not isinstance(where, str) or "." not in where or self.program is None:
+            return [where]
+        c, m = where.rsplit(".", 1)
+        from .anchors import ANCHOR_METHODS
+        ci = getattr(self.program, "classes", {}).get(c)
+        if m in ANCHOR_METHODS or ci is None or m not in ci.methods:
+            return [where]
+        from . import rules
+        eff = sorted(e for e in rules.effective_names(self.program, ci, ci.methods[m]) if e in ANCHOR_METHODS)
+        out = []
+        for e in eff:
+            owner = c
+            for c2 in self.program.mro(c):
+                if c2 in self.program.classes and e in self.program.classes[c2].methods:
+                    owner = c2
+                    break
+            out.append("%s.%s" % (owner, e))
+        return out or [where]
+
     def violation(self, ob, rule, where, construct, reason, message, loc="", witness=None):
+        wheres = self._anchor_wheres(where)
+        if wheres != [where]:
+            last = None
+            for w_ in wheres:
+                last = self._violation(ob, rule, w_, construct, reason, message + " [in helper %s]" % where, loc, witness)
+            return last
+        return self._violation(ob, rule, where, construct, reason, message, loc, witness)
+
+    def _violation(self, ob, rule, where, construct, reason, message, loc="", witness=None):
         f = Finding(rule, where, construct, reason, message, loc, witness)
         if ob is not None:
             ob.failed += 1
